@@ -963,6 +963,9 @@ func (fv *FnV) loopHead(li *loopInfo, st *State) error {
 		if cl := fv.k.Exhaustive[li.ordinal]; cl != nil {
 			fv.exhaustiveForm(li, cl)
 		}
+		if cl := fv.k.Rereads[li.ordinal]; cl != nil {
+			fv.rereadsForm(li, cl)
+		}
 	}
 	li.entrySt = st.clone()
 	// 2. havoc
@@ -1300,6 +1303,36 @@ func (fv *FnV) exhaustiveForm(li *loopInfo, cl *Clause) {
 	}
 	o := fv.emit(nil, "O", fmt.Sprintf("loop%d.%s", li.ordinal, cl.Label), cl.Props, goal, "the loop is left only when its range is exhausted or by a return: "+cl.Text, li.header.Instrs[0].Pos())
 	if why != "" {
+		o.Static = "fails: " + why
+		o.Script = ""
+	}
+}
+
+// rereadsForm: the loop condition compares against len(<expr>) and that length is computed inside the loop, i.e. again
+// before every iteration - elements appended while the loop runs are visited (a `for range` takes the length once).
+func (fv *FnV) rereadsForm(li *loopInfo, cl *Clause) {
+	want := strings.TrimSpace(cl.Text)
+	ok := false
+	why := "the loop condition is not a comparison with len(" + want + ")"
+	if ifi, isIf := li.header.Instrs[len(li.header.Instrs)-1].(*ssa.If); isIf {
+		if b, isB := ifi.Cond.(*ssa.BinOp); isB && b.Op == token.LSS {
+			if c, isC := b.Y.(*ssa.Call); isC {
+				if bi, isBi := c.Common().Value.(*ssa.Builtin); isBi && bi.Name() == "len" && fv.valueNamed(c.Common().Args[0], want) {
+					if li.body[c.Block()] || c.Block() == li.header {
+						ok = true
+					} else {
+						why = "len(" + want + ") is taken once, before the loop"
+					}
+				}
+			}
+		}
+	}
+	goal := "false"
+	if ok {
+		goal = "true"
+	}
+	o := fv.emit(nil, "O", fmt.Sprintf("loop%d.%s", li.ordinal, cl.Label), cl.Props, goal, "the loop runs to the current end of "+want+": its length is read again before every iteration", li.header.Instrs[0].Pos())
+	if !ok {
 		o.Static = "fails: " + why
 		o.Script = ""
 	}
